@@ -23,9 +23,13 @@ LEVEL = "model_checking"
 # (cfg, quick: (mode, traces, replayed sample, variants) | None, thorough: (...))
 RUNS = [
     ("C13_d1", ("bfs", None, None, 2), ("bfs", None, None, 4)),
-    ("C13_sim", ("simulate", 30, 1500, 2), ("simulate", 500, 30000, 2)),
+    ("C13_sim", ("simulate", 30, 1500, 2), ("simulate", 300, 10000, 2)),
     ("C13_d2", None, ("bfs", None, None, 1)),
 ]
+
+
+OPS = {"mutex": ["Set", "Clear", "Import", "ClearImport", "ClearRow", "Roaring"],
+       "bool": ["Set", "Clear", "Import", "ClearImport", "ClearRow", "Roaring", "BadRow"]}
 
 
 def run(ctx):
